@@ -226,3 +226,24 @@ def stores_to_field(b, field):
             if tail and tail[-1] == 'ref' and len(tail) >= 2 and tail[-2] == '.' + field:
                 out.append((i, st))
     return out
+
+
+def collected_elements(b, ty_pred):
+    """Elements that end up in a collection built by `collect()` / `from_iter()` in normal form (A12):
+    (yield call, element operand, collect call) for every `desugar::yield(&mut out, elem)` whose `out`
+    is handed to a collect whose result type satisfies ty_pred."""
+    out = []
+    for c in b.calls_to('Iterator::collect', 'FromIterator::from_iter'):
+        if c.dest['p'] or not ty_pred(b.locals[c.dest['l']]['ty']):
+            continue
+        if not c.args or c.args[0].get('k') not in ('copy', 'move'):
+            continue
+        src = c.args[0]['place']['l']
+        for y in b.calls_to('desugar::yield'):
+            r = y.args[0]
+            if r.get('k') not in ('copy', 'move'):
+                continue
+            ds = [d for d in b.defs.get(r['place']['l'], []) if d[1] != 'call' and d[2]['rv']['k'] == 'ref']
+            if any(d[2]['rv']['place']['l'] == src for d in ds):
+                out.append((y, y.args[1], c))
+    return out
